@@ -25,8 +25,16 @@ THEOREMS = ['CC.C03_perm', 'CC.C03_rename', 'CC.C03_reverse', 'CC.C03_reref',
             'CC.C01_unique', 'CC.C01_sound', 'CC.C01_reported_is_the_solution']
 THEOREMS += ['CC.C06_port_invariant_perm', 'CC.C06_port_invariant_rename', 'CC.C06_port_invariant_reverse', 'CC.C06_port_invariant_reref']
 LEAN_MODULE_EXTRA = ['CC.Properties.C01', 'CC.Properties.C06']
-OPEN_STATEMENTS = ['C03_statespace / C03_transient as theorems (need the C10 transfer theorem); decided per instance by the metamorphic oracle (state-space transfer and transient stream)']
-ASSUMPTIONS = ['C03_reported_* take validity (WF) and well-posedness of the TRANSFORMED network as hypotheses (not derived from the original); power invariance has no theorem of its own (power = V·conj(I) of invariant quantities, C01_power)',
+# state-space / transient level (CC/Properties/C03State.lean, helpers CC/Proofs/StateInvariance.lean)
+THEOREMS += ['CC.C03_transfer_perm', 'CC.C03_transfer_rename', 'CC.C03_transfer_reverse', 'CC.C03_transfer_reref',
+             'CC.C03_sample_state', 'CC.C03_sample_perm', 'CC.C03_sample_rename', 'CC.C03_sample_reverse', 'CC.C03_sample_reref',
+             'CC.C10_transfer', 'CC.C10_transfer_unique', 'CC.C12_sample_circuit', 'CC.C12_state_is_output']
+LEAN_MODULE_EXTRA += ['CC.Properties.C03State', 'CC.Properties.C10', 'CC.Properties.C12']
+OPEN_STATEMENTS = ['C03_statespace / C03_transient are theorems about the Spec-side report read from the output VECTOR y = C x + D u (C03_transfer_*, C03_sample_*); that the model\'s output ROWS (c_row_* / d_row_*) deliver that report is still CC.C10_output_rows_statement (open) - rows covered by correspondence + metamorphic oracle only',
+                   'C03_transient: the theorems are per sample, for states RELATED by the induced state map (same capacitor voltage / inductor current per renamed element, negated when reversed); that the integrator (scipy lsim, a parameter of the model) keeps two related trajectories related is not a theorem - decided per instance by the transient stream of the oracle',
+                   'one composite theorem for rename + permutation + reversal + re-referencing applied together (what the oracle does) is not stated; the four theorems compose only through their hypotheses (well-posedness of each intermediate network)']
+ASSUMPTIONS = ['C03_transfer_* / C03_sample_*: both settings are RLC + ideal-source w=0 networks with certificates satisfying ModelCert (StateModelOK); dictionaries give the same value to the same renamed element and inputs the same amplitude to the same renamed source, negated for a reversed source (SameValues / SameInput - hypotheses, the order of dictionaries and of `sources` is free); well-posedness of the TARGET network is a hypothesis: the phasor network at s (transfer), the circuit with its states imposed as sources (sample); for renaming it is the ORIGINAL network, sigma injective, tau arbitrary',
+               'C03_reported_* take validity (WF) and well-posedness of the TRANSFORMED network as hypotheses (not derived from the original); power invariance has no theorem of its own (power = V·conj(I) of invariant quantities, C01_power)',
                'invariance theorems are about the Spec; equality of reported values uses C01_sound + C01_unique (well-posed networks)',
                'binary64 results compared within 1e-8 relative on instances with cond(A) < 1e8']
 
@@ -401,6 +409,16 @@ def run(ctx, out):
     for k in range(n2):
         if ctx.time_left() < 30: break
         circuit_case(ctx, out, gen_circ.random_circuit(rng), rng.choice([0.0, 1.0, 2.0]), rng.randrange(1 << 30))
+    # several sources sharing few frequencies, listed in every order (seeded change C03-5A: a merge of the source
+    # frequencies that is only right for a sorted listing needs two sources of one frequency with another in between)
+    rngm = ctx.rng('multi_source')
+    for k in range(60 if ctx.quick else 1500):
+        if ctx.time_left() < 25: break
+        out.count('multi_source_circuit')
+        circuit_case(ctx, out, gen_circ.random_circuit(rngm, n_nodes=rngm.randint(2, 4), n_sources=rngm.randint(3, 5),
+                                                       sources=['dc_voltage_source', 'dc_current_source', 'ac_voltage_source', 'ac_current_source'],
+                                                       w_pool=rngm.choice([(1.0, 2.0), (0.0, 1.0, 2.0), (0.5, 1.0)])),
+                     rngm.choice([0.0, 1.0, 2.0]), rngm.randrange(1 << 30))
     import gen_state
     for k in range(160 if ctx.quick else 3000):
         if ctx.time_left() < 10: break
